@@ -4,6 +4,7 @@ NOTES = ("Technique family: machine-checked proof in Lean 4. Each property: theo
          "the real code is driven in-process by /verif/harness (overlay build), the Lean driver ssoverif replays every trace through the model and evaluates the property's monitor on the implementation's own outputs. "
          "Known findings: /verif/known_findings.json. See DESIGN.md.")
 ENGINE = {
+    'validators': 'real address/domain validators on generated rule lists and e-mails, strings.ToLower as oracle, compared with the Lean validators and with the documented meaning',
     'caches': 'real GroupCache/LocalCache, real FillCache in lockstep with an owned fillFunc, real Google and Cognito ValidateGroupMembership with fake directory; compared with the Lean cache models',
     'sf': 'real singleflight.Group under lockstep schedules incl. the done/remove window (yield point in an overlay copy), compared with the Lean LTS',
     'sfwrap': 'both real SingleFlightProvider middlewares with held executions: observed composite keys, merged answers and every caller\'s session vs the Lean wrapper model',
@@ -11,11 +12,13 @@ ENGINE = {
 }
 TECH = {}
 LEVEL = {
+    'C11': "Lean 4 theorems for every ToLower function: address rule = exact lower-cased membership; domain rule = the part after the last '@' equals the listed domain (no look-alike suffix); lone '*' admits exactly the non-empty e-mails; empty e-mail / empty rules admit nobody; login verdict = documented any-of; request verdict = login verdict with one rule kind, and is never laxer; the full 'same verdict at login and later' statement is refuted by a proved counterexample (open finding). Tied by differential runs of the real validators.",
     'C17': "Lean 4 theorems: for every history a cache hit returns an answer the directory gave under the same key; errors are not cached; purges only forget; key injectivity / order-insensitivity (with the comma counterexample proved); FillCache LTS invariant for all interleavings (single fill per group across callers and loops, single loop per group, cache = latest successful fill with no not-found since, store/keep/delete); Google falls back to the directory for partly cached questions; Cognito's fallback is refuted (open finding) with partial theorems. Tied by regenerated skeletons and lockstep/differential replay of the real caches and providers.",
     'C16': "Lean 4 theorems over the singleflight LTS for any number of threads/keys and every interleaving (one execution per key, joined callers get the one execution's result, leader's count = number joined, fresh execution after return, keys never shared), key-injectivity theorems for the composite and membership keys with the needed side conditions and proved counterexamples without them, and the follower-session refutation + partial theorems. Tied by regenerated skeleton/key facts and lockstep replay of the real Group and both real middlewares. Two open known findings (follower session not updated; ':'/',' key collisions).",
     'C15': "Lean 4 theorems over the breaker LTS for all rule functions and all event interleavings (inductive invariant: in-flight counter = number of running calls, half-open cap, no in-flight call of an open generation, generation counts state changes; iff-characterisations of trip/reset/re-open; stale outcomes irrelevant). The model is tied to breaker.go by regenerated lock/call skeletons (re-proved equal to what the LTS assumes) and by lockstep replay of the real Breaker against the model.",
 }
 NOTE = {
+    'C11': "Trusted: Lean kernel; harness + driver; ToLower uninterpreted. Open findings: domain-star-suffix; allow-rules-all-of (login any-of vs request all-of: proved in Lean as C11_request_eq_login_refuted).",
     'C17': "Trusted: Lean kernel; Go RWMutex atomicity; syncmap; harness + driver; TTL purges and ticker ticks are modelled as nondeterministic events (purges fired through an accessor, ticks not forced). Two open known findings: cognito-partial-cache-union, groupcache-key-comma.",
     'C16': "Trusted: Lean kernel; Go mutex/WaitGroup semantics; the instrumented overlay copy differs from the source by one yield line; harness + driver. The last sentence of C16 is false of the unchanged code (KNOWN-FINDING sf-follower-session); the theorem is kept as a refutation plus partial theorems.",
     'C15': "Trusted: Lean kernel; Go mutex atomicity of the two critical sections; the mock clock; extractor + harness + driver. Theorems depend on axioms propext/Quot.sound/Classical.choice at most (audited per run).",
